@@ -11,6 +11,7 @@ import PdbModel.DriverC09
 import PdbModel.DriverC11
 import PdbModel.DriverC10
 import PdbModel.DriverC18
+import PdbModel.DriverC17
 namespace PdbModel
 
 def parseLevels (t : String) : Option (List ErrorLevel) :=
@@ -47,6 +48,7 @@ def handle (line : String) : String :=
   | "c11" :: rest => (handleC11 rest).getD "BAD-REQUEST"
   | "c10" :: rest => (handleC10 rest).getD "BAD-REQUEST"
   | "c18" :: rest => (handleC18 rest).getD "BAD-REQUEST"
+  | "c17" :: rest => (handleC17 rest).getD "BAD-REQUEST"
   | _ => "BAD-REQUEST"
 
 end PdbModel
